@@ -111,7 +111,8 @@ func C19Col(r *sqlite.Rows, i int) (int64, error) { return c19.rows[c19.pos-1][i
 
 func C19Err(r *sqlite.Rows) error { return nil }
 
-// Three get-or-create requests for one metric after the global budget is exhausted, under an arbitrary
+// Three get-or-create requests for one metric after the global budget (0, or 2 with 3 mappings already
+// present; last created id known or 0 = process just restarted) is exhausted, under an arbitrary
 // non-decreasing clock (0..100000 s between requests), step in {1, 60, 3600}, bonus in {0, 1, 2},
 // maximum budget 1..3, from either no flood-limit row or an arbitrary stored one (remaining 0..max,
 // last update at or before the first request): each request asks for a new key or repeats the first.
@@ -137,6 +138,20 @@ func Harness_C19_get_or_create_sequence() {
 		initial = d.free
 		start = uint32(d.last)
 	}
+	// the global budget (0 or 2 mappings) is already used up: more mappings exist than it allows; the
+	// process either created them itself (last created id known) or has just restarted (id 0)
+	global := int64([]int{0, 2}[v.Choice(2)])
+	for i := int64(0); i <= global && global > 0; i++ {
+		d.mapNames = append(d.mapNames, []string{"p1", "p2", "p3"}[i])
+	}
+	pre := len(d.mapNames)
+	lastCreated := int32(0)
+	if v.NondetBool() {
+		lastCreated = int32(1000)
+		if pre > 0 {
+			lastCreated = int32(pre)
+		}
+	}
 	keys := []string{"k1", "k2", "k3"}
 	created := 0
 	nextKey := 0
@@ -152,7 +167,7 @@ func Harness_C19_get_or_create_sequence() {
 			key = keys[0]
 		}
 		freeBefore, lastBefore := d.free, d.last
-		resp, _, err := getOrCreateMapping(sqlite.Conn{}, cache[:0], "m", key, time.Unix(int64(t), 0), 0, max, bonus, step, 1000)
+		resp, _, err := getOrCreateMapping(sqlite.Conn{}, cache[:0], "m", key, time.Unix(int64(t), 0), global, max, bonus, step, lastCreated)
 		v.Assert("C19.seq.no_error", err == nil)
 		now := t - t%step
 		elapsed := int64((now - start) / step)
@@ -163,6 +178,7 @@ func Harness_C19_get_or_create_sequence() {
 		}
 		if c, ok := resp.AsCreated(); ok {
 			created++
+			lastCreated = c.Id
 			v.Assert("C19.seq.created_id_is_new_and_positive", c.Id == int32(len(d.mapNames)) && d.mapNames[c.Id-1] == key)
 			v.Assert("C19.seq.stored_time_is_rounded_request_time", d.hasFlood && d.last == int64(now))
 			if nextKey == 0 {
@@ -171,7 +187,7 @@ func Harness_C19_get_or_create_sequence() {
 			nextKey++
 		} else {
 			v.Assert("C19.seq.refusal_is_flood_limit_error", resp.IsFloodLimitError())
-			v.Assert("C19.seq.refused_request_creates_nothing", len(d.mapNames) == created && d.free == freeBefore && d.last == lastBefore)
+			v.Assert("C19.seq.refused_request_creates_nothing", len(d.mapNames) == pre+created && d.free == freeBefore && d.last == lastBefore)
 			v.Reach("C19.seq.refused")
 		}
 		v.Assert("C19.seq.created_within_budget_plus_bonus", int64(created) <= initial+bonus*elapsed)
